@@ -830,3 +830,6 @@ ITEMS = [
     Item('add_computed_field.package-phase', sym_computed_pkg, [], P + 'add_computed_field.py::add_computed_field.func'),
     Item('lockstep', None, [('end-to-end', nat_lockstep), ('several-resources', nat_lockstep_multi)], None),
 ]
+
+from contracts import reuse as _REUSE   # noqa: E402
+ITEMS.append(Item('second-use', None, [('catalogue', _REUSE.nat_second_use_for('C15'))], 'dataflows/processors/add_computed_field.py::add_computed_field.func'))
